@@ -617,4 +617,43 @@ theorem heartbeat_runFrom (cfg : Cfg) (evs : List Ev) :
 theorem heartbeatOnlyStable_run (cfg : Cfg) (evs : List Ev) : heartbeatOnlyStable (toMSteps (run cfg evs)) = true :=
   heartbeat_runFrom cfg evs init false sinv_init (fun h => by simp [H, init] at h)
 
+
+/-! ## heartbeats quote the member's current ids -/
+
+theorem hb_ids (cfg : Cfg) (s : St) (e : Ev) (o : Ob) (ho : o ∈ (step cfg s e).2) (hb : isHeartbeatOb o = true) :
+    o = .heartbeat s.gen s.member := by
+  have hsig := mem_sig ho (not_bg_of_hb hb)
+  rw [step_sig] at hsig
+  by_cases hf : ∃ id n, e = .fire id n
+  · obtain ⟨id, hbNext, rfl⟩ := hf
+    simp only [expectedSig, lookupSig] at hsig
+    repeat' split at hsig
+    all_goals (first | (simp at hsig; done) | (simp at hsig; subst hsig; first | rfl | cases hb))
+  · have := sig_nohb s e (fun id n x => hf ⟨id, n, x⟩) o hsig
+    rw [this] at hb; cases hb
+
+theorem heartbeatIds_runFrom (cfg : Cfg) (evs : List Ev) :
+    ∀ (s : St), heartbeatIdsFrom (snap s) (toMSteps (runFrom cfg s evs)) = true := by
+  induction evs with
+  | nil => intro s; rfl
+  | cons e es ih =>
+    intro s
+    simp only [runFrom, toMSteps, List.map_cons, heartbeatIdsFrom, Bool.and_eq_true]
+    refine ⟨?_, ih _⟩
+    rw [List.all_eq_true]
+    intro o ho
+    by_cases hb : isHeartbeatOb o = true
+    · obtain ⟨_, hH, _⟩ := hb_emit cfg s e o ho hb
+      have hid := hb_ids cfg s e o ho hb
+      obtain ⟨a, b⟩ := (H_iff s).mp hH
+      simp only [hb, Bool.not_true, Bool.false_or, Bool.and_eq_true, Bool.not_eq_true', beq_iff_eq]
+      exact ⟨⟨b, a⟩, hid⟩
+    · simp only [Bool.not_eq_true] at hb
+      simp [hb]
+
+/-- **C16 heartbeat ids**: every heartbeat is sent by a member neither stopping nor wanting a rejoin
+    and quotes its current generation and member id -/
+theorem heartbeatIds_run (cfg : Cfg) (evs : List Ev) : heartbeatIds (toMSteps (run cfg evs)) = true :=
+  heartbeatIds_runFrom cfg evs init
+
 end Afkak.Group
